@@ -18,7 +18,7 @@ from props.c15 import bits, unbits
 
 RULE = ("cases = random value arrays (rank 1-3, magnitudes 1 .. 1e6, scales 1e-3 .. 1e3) x choice-axis subsets x sorted segmentations; distinct = "
         "(rank, axes, segments?, magnitude decade, scale decade); evaluations = aggregations compared and property clauses evaluated")
-ASSUMPTIONS = ["relative tolerance 1e-9 (+ absolute 1e-9*magnitude)", "values/scale stays finite (input range asserted by the harness: |v|/s <= 1e9)"]
+ASSUMPTIONS = ["relative tolerance 1e-9 (+ absolute 1e-9*magnitude)", "the comparison with the model uses |v|/s <= 1e9; the finiteness / bounds clause is additionally evaluated for scales down to 1e-305, eager and jitted with a constant scale"]
 
 
 def cases(seed, tier):
@@ -109,6 +109,21 @@ def run_case(case):
     out["evals"] += 1
     if not np.all(np.isfinite(lim)) or np.any(np.abs(lim - mx) > tiny * np.log(np.maximum(cnt, 1)) + tol(mx)):
         vs.append({"clause": "approaches the maximum as s goes to zero", "detail": f"{desc} scale {tiny}: {lim.ravel()[:4].tolist()} vs max {mx.ravel()[:4].tolist()}", "key": "C20:limit"})
+    # very small scales (any scale > 0 is in the quantifier), eager and inside a jitted function in which the scale is a
+    # constant: the result must stay finite and within [max, max + s * log(number of choices)]
+    import functools
+
+    for tiny2 in (r.choice([1e-13, 1e-14, 1.7e-15, 1e-16, 1e-20]), r.choice([1e-300, 1e-305])):
+        p2 = {"additive_utility_shock": {"scale": tiny2}}
+        fj = I.jax.jit(functools.partial(_calculate_emax_extreme_value_shocks, choice_axes=axes, choice_segments=seginfo, params=p2))
+        for label, res in (("eager", emax(vals, axes, seginfo, scale=tiny2)), ("jit, constant scale", np.asarray(fj(jnp.asarray(vals))))):
+            out["evals"] += 1
+            if not np.all(np.isfinite(res)) or np.any(res < mx - tol(mx)) or np.any(res > mx + tiny2 * np.log(np.maximum(cnt, 1)) + tol(mx)):
+                vs.append({"clause": "the result is finite for finite inputs of any magnitude and lies between the maximum and the maximum plus s*log(number of choices)",
+                           "detail": f"{desc} scale {tiny2} ({label}): {res.ravel()[:4].tolist()} vs max {mx.ravel()[:4].tolist()}", "key": "C20:tinyscale"})
+                break
+        if vs:
+            break
     # axes layout == segment layout of the same choices: choices along axis 1 vs rows of segments
     if nd >= 2:
         a2 = vals.reshape(sh[0], -1)[:, : max(1, min(4, int(np.prod(sh[1:]))))]
